@@ -394,6 +394,7 @@ def run(ctx):
     ctx.run("C10.WORKER", "R-ERRDISC", worker)
     ctx.run("C10.LOCK-ORDER", "R-LOCK", lock_order)
     ctx.run("C10.SUBMIT-NONBLOCKING", "R-LOCK", submit_nonblocking)
+    ctx.run("C10.WAKEUP", "R-ORDER", wakeup_typestate)
     # the joblib side of healing: a failed call must leave no state that disables the next abort / re-arming
     ctx.run("C04.RESET", "R-RESET", par.c04_reset)
     ctx.run("C04.CLEANUP", "R-ORDER", par.c04_cleanup)
@@ -442,6 +443,31 @@ def submit_nonblocking(ctx):
         if not bad:
             ctx.ok(fn, "%s hands the task over without waiting for the executor" % q)
     ctx.floor(n, 2, "in-tree submit implementations")
+
+
+def wakeup_typestate(ctx):
+    """_ThreadWakeup (the pipe that wakes the manager thread): once closed it stays closed - close() latches the flag on the
+    path that closes the two ends, and wakeup()/clear() touch the pipe only while the flag is down. Otherwise shutting down
+    an executor whose manager thread has already gone (a pool broken while idle) raises OSError on the closed handle, the
+    global executor is never reset and every later call fails the same way: the pool does not heal."""
+    cls_q = "_ThreadWakeup"
+    close = ctx.repo.func(PE, cls_q + ".close")
+    g = cfg_of(close)
+    ends = [c for c in calls_in(close) if call_name(c) in ("self._writer.close", "self._reader.close")]
+    latch = [a for a in nodes_of_type(close, ast.Assign) if "self._closed" in stores_to(a) and is_const(a.value, True)]
+    ok = bool(ends) and bool(latch) and all(g.every_path_to(g.nodes_of(e), g.nodes_of_all(latch)) or g.every_path_from(g.nodes_of(e), g.nodes_of_all(latch), None, skip_exc=True) for e in ends)
+    ctx.check(ok, latch[0] if latch else close, "close() latches _closed on the path that closes the pipe ends",
+              "_ThreadWakeup.close() closes the pipe without latching `_closed = True`: a later wakeup()/clear()/close() works on closed handles and raises OSError (shutdown of an executor "
+              "whose manager thread already exited fails, the pool never heals)", key=None if latch else PE + "::_ThreadWakeup.close::latch")
+    for q, ops in (("wakeup", ("self._writer.send_bytes",)), ("clear", ("self._reader.poll", "self._reader.recv_bytes"))):
+        fn = ctx.repo.func(PE, cls_q + "." + q)
+        g2 = cfg_of(fn)
+        for c in [c for c in calls_in(fn) if call_name(c) in ops]:
+            facts = g2.fact_set(g2.nodes_of(c))
+            ctx.check(("self._closed", False) in facts, c, "%s() touches the pipe only while it is open" % q, "%s() uses the pipe without testing `_closed` (facts: %s)" % (q, sorted(facts)))
+    for c in ends:
+        facts = g.fact_set(g.nodes_of(c))
+        ctx.check(("self._closed", False) in facts, c, "close() is idempotent (the ends are closed once)", "close() closes the ends again when already closed")
 
 # ---------------------------------------------------------------------------
 
